@@ -602,7 +602,7 @@ class C04(Suite):
     spec = "spec_ok"
     kf = "kf"
     kf_ids = {i: f"F-C04-{i}" for i in (1, 2, 4, 5, 6, 7, 9)}  # 3, 8, 10, 11 fixed in /repo
-    corr = "rdflib.plugins.sparql.evaluate.evalPart (evalBGP, evalJoin, evalLazyJoin, evalLeftJoin, evalFilter, evalUnion, evalMinus, evalExtend, evalValues, evalGraph, evalProject, evalDistinct), operators.RelationalExpression/ConditionalAnd/Or/UnaryNot/Builtin_BOUND/Builtin_EXISTS, algebra.translateQuery"
+    corr = "rdflib.plugins.sparql.evaluate.evalPart (evalBGP, evalJoin, evalLazyJoin, evalLeftJoin, evalFilter, evalUnion, evalMinus, evalExtend, evalValues, evalGraph, evalProject, evalDistinct, evalSlice), evalConstructQuery / _fillTemplate, processor.SPARQLProcessor.query with the graph's namespace bindings, operators.RelationalExpression/ConditionalAnd/Or/UnaryNot/Builtin_BOUND/Builtin_EXISTS, algebra.translateQuery"
     quick_n = 1200
     thorough_n = 12000
     timeout_s = 10.0
@@ -1171,6 +1171,14 @@ ASSUMPTIONS = [
     "no plain / language-tagged strings, no blank nodes; the theorems C04_pushdown_partial / C04_spec_ok_model_partial assume data without "
     "boolean literals (case_wf): with them and a comparison in the query the case is in the region of F-C04-9 (trigger 9)",
     "initBindings empty (C15 exercises initBindings by conformance)",
+    "OFFSET (Slice without a length) only on a sub-SELECT at the top of the outermost group, in cases built so that the NUMBER of solutions "
+    "does not depend on which rows the slice drops (every row of the sub-SELECT joins exactly one outer solution; observed through a projection "
+    "onto a variable nothing binds); the specification's Slice takes the list order of its own evaluation; no LIMIT, no ORDER BY; Slice is "
+    "outside the proved fragment (shape = false)",
+    "blank nodes in CONSTRUCT templates only in the form 'one blank node, one triple per variable' (form star), observed as the multiset of "
+    "stars = solutions restricted to the template variables; other templates have no blank nodes",
+    "12 % of the cases are posed through a prefix declared only by the graph's namespace bindings, after the same text has been posed to a "
+    "graph that binds that prefix to another namespace; the model knows nothing of prefixes (the answer must be that of the full-IRI query)",
     "the order of solutions and of dict entries is not observed",
     "expressions: variables, constants, = != < >, && || !, BOUND, IN / NOT IN over constant lists with an atomic left operand, IF, COALESCE, "
     "(NOT) EXISTS; not modelled (the converter fails closed): arithmetic, the string / date / hash built-ins, IN over non-constant members, "
@@ -1179,5 +1187,6 @@ ASSUMPTIONS = [
 ]
 RULE = ("queries: group graph patterns of nesting <= 4 over 1-4 variables shared at random between BGPs, OPTIONAL, UNION, MINUS, FILTER "
         "(comparisons, && || !, BOUND, IN / NOT IN over constants, IF, COALESCE, (NOT) EXISTS), BIND (also of IF / COALESCE with an operand that raises), VALUES (with UNDEF and duplicate rows), sub-SELECT (DISTINCT or not), GRAPH "
-        "(IRI or variable; 14 % of the dataset cases: (NOT) EXISTS as FILTER / OPTIONAL condition / BIND inside GRAPH ?g over two named graphs that share the outer matches and differ in what the EXISTS pattern matches), SELECT (star or projection) / ASK / CONSTRUCT; data: 1-5 triples over 2-3 subjects, 1-2 predicates, 2-3 objects (IRIs and integers; with probability 0.2 also one xsd:boolean), "
+        "(IRI or variable; 14 % of the dataset cases: (NOT) EXISTS as FILTER / OPTIONAL condition / BIND inside GRAPH ?g over two named graphs that share the outer matches and differ in what the EXISTS pattern matches), SELECT (star or projection) / ASK / CONSTRUCT (5 % ground-or-variable templates, 5 % one-blank-node star templates); 5 % of the non-dataset cases: "
+        "{ ?x q ?z . { SELECT ?x { ?x p ?y } OFFSET n } } over data with exactly one q-triple per subject, projected onto an unbound variable; data: 1-5 triples over 2-3 subjects, 1-2 predicates, 2-3 objects (IRIs and integers; with probability 0.2 also one xsd:boolean), "
         "datasets with two named graphs whose names are also data terms; distinct by full case content; non-trivial = evaluated without error")
